@@ -6,6 +6,9 @@ Open Scope Z_scope.
 Lemma chk_in z : in_i64 z = true -> chk z = Val z.
 Proof. intros H. unfold chk. rewrite H. reflexivity. Qed.
 
+Lemma cchk_in z : in_i64 z = true -> cchk z = Val z.
+Proof. intros H. unfold cchk. rewrite H. reflexivity. Qed.
+
 Lemma b2z_truth b : b2z b = truth b.
 Proof. reflexivity. Qed.
 
@@ -27,16 +30,17 @@ Lemma apply_i64_sem op a b :
   apply_i64 op a b = Val (sem_binop op a b).
 Proof.
   intros Hd Ha Hb Hr. destruct op; cbn [apply_i64 sem_binop] in *;
-    unfold i64_add, i64_sub, i64_mul, i64_xor; rewrite ?chk_in by assumption; rewrite ?b2z_truth; try reflexivity.
-  - (* Div *) destruct Hd as [Hnz Hq]. assert (E : (b =? 0) = false) by lia. rewrite E. unfold i64_div.
-    destruct ((a =? i64_min) && (b =? -1)) eqn:M; [|reflexivity].
+    unfold i64_add, i64_sub, i64_mul, i64_xor, i64_checked_add, i64_checked_sub, i64_checked_mul;
+    rewrite ?chk_in by assumption; rewrite ?cchk_in by assumption; rewrite ?b2z_truth; try reflexivity.
+  - (* Div *) destruct Hd as [Hnz Hq]. assert (E : (b =? 0) = false) by lia. rewrite E. unfold i64_div, i64_checked_div. rewrite ?E.
+    cbn [orb]. destruct ((a =? i64_min) && (b =? -1)) eqn:M; [|reflexivity].
     exfalso. apply andb_prop in M as [M1 M2]. apply Z.eqb_eq in M1, M2. subst. vm_compute in Hq. discriminate.
-  - (* Mod *) destruct Hd as [Hnz Hq]. assert (E : (b =? 0) = false) by lia. rewrite E. unfold i64_rem.
-    destruct ((a =? i64_min) && (b =? -1)) eqn:M; [|reflexivity].
+  - (* Mod *) destruct Hd as [Hnz Hq]. assert (E : (b =? 0) = false) by lia. rewrite E. unfold i64_rem, i64_checked_rem. rewrite ?E.
+    cbn [orb]. destruct ((a =? i64_min) && (b =? -1)) eqn:M; [|reflexivity].
     exfalso. apply andb_prop in M as [M1 M2]. apply Z.eqb_eq in M1, M2. subst. vm_compute in Hq. discriminate.
-  - (* Shl *) unfold i64_shl. assert (E : (0 <=? b) && (b <? 64) = true) by lia. rewrite E.
+  - (* Shl *) unfold i64_shl, i64_checked_shl. assert (E : (0 <=? b) && (b <? 64) = true) by lia. rewrite E.
     rewrite wrap64_id by assumption. reflexivity.
-  - (* Shr *) unfold i64_shr. assert (E : (0 <=? b) && (b <? 64) = true) by lia. rewrite E.
+  - (* Shr *) unfold i64_shr, i64_checked_shr. assert (E : (0 <=? b) && (b <? 64) = true) by lia. rewrite E.
     rewrite Z.shiftr_div_pow2 by lia. reflexivity.
 Qed.
 
@@ -48,7 +52,7 @@ Lemma apply_flags_sem fnot fneg v :
   in_i64 (- v) = true -> apply_flags flag_order fnot fneg v = Val (sem_flags fnot fneg v).
 Proof.
   intros H. rewrite flag_order_is. cbn [apply_flags apply_flag]. unfold sem_flags.
-  destruct fneg; [unfold i64_neg; rewrite chk_in by assumption|]; destruct fnot; reflexivity.
+  destruct fneg; [unfold i64_neg, i64_checked_neg; rewrite chk_in, cchk_in by assumption; destruct neg_checked|]; destruct fnot; reflexivity.
 Qed.
 
 Lemma with_flags_sem fnot fneg v :
@@ -118,18 +122,62 @@ Proof.
     rewrite Nat2Z.inj_succ, Z.pow_succ_r by lia. ring.
 Qed.
 
+Lemma ascii_lower_digit c v : ascii_lower c = v -> (v = 116 \/ v = 108)%N -> spec_digit c = -1.
+Proof.
+  unfold ascii_lower, spec_digit. intros E Hv.
+  destruct ((65 <=? c)%N && (c <=? 90)%N) eqn:U.
+  - assert (c = 84 \/ c = 76)%N as [-> | ->] by lia; reflexivity.
+  - assert (c = 116 \/ c = 108)%N as [-> | ->] by lia; reflexivity.
+Qed.
+
+(* a string of valid digits is never one of the two keywords, in any letter case *)
+Lemma keyword_text_digits radix digits :
+  radix <= 16 -> Forall (fun c => 0 <= spec_digit c < radix) digits ->
+  text_eqb (keyword_text digits) t_true = false /\ text_eqb (keyword_text digits) t_false = false.
+Proof.
+  intros Hr Hall. unfold keyword_text. destruct literal_keywords_ignore_case.
+  - split.
+    + destruct (text_eqb (map ascii_lower digits) t_true) eqn:E; [|reflexivity]. exfalso.
+      apply text_eqb_eq in E. destruct digits as [|c ds]; [discriminate|]. cbn [map] in E. injection E as E1 _.
+      inversion Hall as [|? ? Hc _]; subst. rewrite (ascii_lower_digit c _ E1) in Hc by (left; reflexivity). lia.
+    + destruct (text_eqb (map ascii_lower digits) t_false) eqn:E; [|reflexivity]. exfalso.
+      apply text_eqb_eq in E. destruct digits as [|c1 [|c2 [|c ds]]]; try discriminate. cbn [map] in E. injection E as _ _ E1 _.
+      inversion Hall as [|? ? _ H2]; subst. inversion H2 as [|? ? _ H3]; subst. inversion H3 as [|? ? Hc _]; subst.
+      rewrite (ascii_lower_digit c _ E1) in Hc by (right; reflexivity). lia.
+  - split.
+    + destruct (text_eqb digits t_true) eqn:E; [|reflexivity]. exfalso. apply text_eqb_eq in E. subst.
+      inversion Hall as [|? ? Hc _]; subst. replace (spec_digit _) with (-1) in Hc by reflexivity. lia.
+    + destruct (text_eqb digits t_false) eqn:E; [|reflexivity]. exfalso. apply text_eqb_eq in E. subst.
+      inversion Hall as [|? ? _ H2]; subst. inversion H2 as [|? ? _ H3]; subst. inversion H3 as [|? ? Hc _]; subst.
+      replace (spec_digit _) with (-1) in Hc by reflexivity. lia.
+Qed.
+
+Lemma keyword_text_keywords : keyword_text t_true = t_true /\ keyword_text t_false = t_false.
+Proof. unfold keyword_text. destruct literal_keywords_ignore_case; split; reflexivity. Qed.
+
 Lemma literal_value radix digits :
   valid_literal radix digits -> in_i64 (spec_lit radix digits) = true ->
   number_value radix digits = Val (spec_lit radix digits).
 Proof.
   intros [Hr Hd] Hfit. unfold number_value, spec_lit in *.
-  destruct (text_eqb digits t_true) eqn:T; [reflexivity|].
-  destruct (text_eqb digits t_false) eqn:F; [reflexivity|].
-  destruct Hd as [-> | [-> | [Hne Hall]]]; [cbn in T; discriminate | cbn in F; discriminate|].
-  destruct digits as [|c ds]; [congruence|].
-  rewrite (digits_value_spec radix (c :: ds)) by (try exact Hall; lia).
-  rewrite Z.mul_0_l, Z.add_0_l.
-  unfold in_i64 in Hfit. apply andb_prop in Hfit as [_ Hmax]. rewrite Hmax. reflexivity.
+  destruct keyword_text_keywords as [KT KF].
+  destruct Hd as [-> | [-> | [Hne Hall]]].
+  - rewrite KT. reflexivity.
+  - rewrite KF. reflexivity.
+  - assert (R16 : radix <= 16) by lia.
+    destruct (keyword_text_digits radix digits R16 Hall) as [T F]. rewrite T, F.
+    assert (T' : text_eqb digits t_true = false).
+    { destruct (text_eqb digits t_true) eqn:E; [|reflexivity]. apply text_eqb_eq in E. subst.
+      inversion Hall as [|? ? Hc _]; subst. replace (spec_digit _) with (-1) in Hc by reflexivity. lia. }
+    assert (F' : text_eqb digits t_false = false).
+    { destruct (text_eqb digits t_false) eqn:E; [|reflexivity]. apply text_eqb_eq in E. subst.
+      inversion Hall as [|? ? _ H2]; subst. inversion H2 as [|? ? _ H3]; subst. inversion H3 as [|? ? Hc _]; subst.
+      replace (spec_digit _) with (-1) in Hc by reflexivity. lia. }
+    rewrite T', F' in Hfit. rewrite T', F'.
+    destruct digits as [|c ds]; [congruence|].
+    rewrite (digits_value_spec radix (c :: ds)) by (try exact Hall; lia).
+    rewrite Z.mul_0_l, Z.add_0_l.
+    unfold in_i64 in Hfit. apply andb_prop in Hfit as [_ Hmax]. rewrite Hmax. reflexivity.
 Qed.
 
 (* ---- the evaluator computes ordinary integer arithmetic on the property's domain ---- *)
